@@ -47,7 +47,9 @@ impl Tokenizer {
                     "SPACE is not defined in the input dictionary (i.e., char.def).",
                 )
             })?;
-            self.space_cateset = Some(1 << cate_id);
+            // Only the first categories fit the set of a character; a category declared beyond
+            // them is carried by no character, so nothing is a space then.
+            self.space_cateset = Some(1u32.checked_shl(cate_id).unwrap_or(0));
         } else {
             self.space_cateset = None;
         }
